@@ -8,6 +8,9 @@ import (
 	"sort"
 	"strings"
 
+	metav1 "k8s.io/apimachinery/pkg/apis/meta/v1"
+
+	corev1alpha1 "package-operator.run/apis/core/v1alpha1"
 	"package-operator.run/internal/packages/zzverif/checks"
 	"package-operator.run/internal/packages/zzverif/checks/twin"
 	"package-operator.run/internal/packages/zzverif/kmodel"
@@ -57,7 +60,7 @@ func Check(before *world.World, _ world.Event, pass *world.Pass, after *world.Wo
 				return nil
 			}
 			paused = true
-			for _, p := range osw.SpecPhases(read, ownKey.Namespace) {
+			for _, p := range osw.SpecPhasesIn(before.S, read, ownKey.Namespace) {
 				if p.Class != "" {
 					delegated = append(delegated, p.Name)
 					continue
@@ -87,7 +90,7 @@ func Check(before *world.World, _ world.Event, pass *world.Pass, after *world.Wo
 		if pass.Ctrl == world.CtrlObjectSet && pass.Err == nil && !pass.Crashed {
 			id := world.IdentOf(ownKey, read)
 			// does an earlier phase fail its probes in what this pass saw? (the rollout loop stops there)
-			specPhases := osw.SpecPhases(read, ownKey.Namespace)
+			specPhases := osw.SpecPhasesIn(before.S, read, ownKey.Namespace)
 			earlierFails := func(name string) bool {
 				for _, p := range specPhases {
 					if p.Name == name {
@@ -257,10 +260,13 @@ type scenario struct {
 	Edits   int      `json:"edits"`
 	// Restarts: budget of operator crashes before request i of a pass (the next pass starts with an empty dynamic cache)
 	Restarts int `json:"restarts"`
+	// SlicedPaused: the ObjectSet keeps its objects in ObjectSlices and is created with
+	// lifecycleState Paused (paused before it ever adopted its slices)
+	SlicedPaused bool `json:"slicedPaused"`
 }
 
 func (sc scenario) name() string {
-	return fmt.Sprintf("%s phases=%d delegated=%03b statuses=%d pauses=%d third=%d edits=%d restarts=%d", sc.Kind, sc.N, sc.Mask, len(sc.Classes), sc.Pauses, sc.Third, sc.Edits, sc.Restarts)
+	return fmt.Sprintf("%s phases=%d delegated=%03b statuses=%d pauses=%d third=%d edits=%d restarts=%d slicedPaused=%v", sc.Kind, sc.N, sc.Mask, len(sc.Classes), sc.Pauses, sc.Third, sc.Edits, sc.Restarts, sc.SlicedPaused)
 }
 
 func thirdPartyEvents(w *world.World, keys []kmodel.Key) []world.Event {
@@ -307,7 +313,19 @@ func system(sc scenario) *world.System {
 			w := osw.NewWorld()
 			w.MustCreate(world.NewObjectSet("x", nil, nil))
 			if sc.Kind == "objectset" {
-				w.MustCreate(world.NewObjectSet("r1", osw.PhaseSpecs(osw.B1(sc.N, sc.Mask), 1), world.StdProbes()))
+				ps := osw.PhaseSpecs(osw.B1(sc.N, sc.Mask), 1)
+				if sc.SlicedPaused {
+					for i := range ps {
+						sn := "r1-slice-" + ps[i].Name
+						w.MustCreate(&corev1alpha1.ObjectSlice{ObjectMeta: metav1.ObjectMeta{Name: sn, Namespace: world.NS}, Objects: ps[i].Objects})
+						ps[i].Slices, ps[i].Objects = []string{sn}, nil
+					}
+				}
+				os := world.NewObjectSet("r1", ps, world.StdProbes())
+				if sc.SlicedPaused {
+					os.Spec.LifecycleState = corev1alpha1.ObjectSetLifecycleStatePaused
+				}
+				w.MustCreate(os)
 			} else {
 				w.MustCreate(osw.NewOD("d", t1, nil))
 			}
@@ -380,6 +398,7 @@ func scenarios(quick bool) []scenario {
 		{Kind: "deployment", Classes: []string{"ready"}, Pauses: 2, Edits: 1},
 		{Kind: "objectset", N: 2, Mask: 0, Classes: []string{"ready"}, Pauses: 1, Restarts: 1},
 		{Kind: "objectset", N: 2, Mask: 0b10, Classes: []string{"ready"}, Pauses: 1, Restarts: 1},
+		{Kind: "objectset", N: 2, Mask: 0, Classes: two, Pauses: 2, SlicedPaused: true},
 	}
 	if !quick {
 		out = append(out,
@@ -443,9 +462,9 @@ func init() {
 		},
 		Subs: []*checks.Sub{{Name: "bfs", Shards: func(t string) int {
 			if t == "thorough" {
-				return 8
+				return 12
 			}
-			return 5
+			return 8
 		}, Run: run, Replay: replay, Parallel: true},
 			{Name: "decision", Shards: func(string) int { return 4 }, Run: runDecision, Replay: replayDecision},
 			{Name: "package", Shards: func(string) int { return 3 }, Run: runPackage, Replay: replayPackage, Parallel: true},
